@@ -48,7 +48,7 @@ def _ops():
         st.builds(lambda n, t: f"{n};255;3;0;{t};\n", node, st.sampled_from((6, 1, 9, 18))),
         st.sampled_from(("255;255;3;0;3;\n", "junk\n", "0;255;3;0;14;ready\n")),
     )
-    return st.lists(st.one_of(missing_kinds, missing_kinds, missing_kinds, present, never).map(lambda l: ["rx", l]), min_size=8, max_size=30)
+    return st.lists(gen.weighted((6, missing_kinds), (2, present), (2, never)).map(lambda l: ["rx", l]), min_size=8, max_size=30)
 
 
 _registry = st.sampled_from(
@@ -67,6 +67,7 @@ def strategy(tier: str):
             "version": st.sampled_from(("2.0", "2.1", "2.2", "2.0", "2.1", "2.2", "1.4", "1.5")),
             "registry": _registry,
             "ops": _ops(),
+            "listen_mode": st.sampled_from(("fresh", "persistent")),
             "fail_requests": st.one_of(st.just([]), st.lists(st.integers(0, 6), max_size=3, unique=True).map(sorted)),
         }
     )
